@@ -59,6 +59,7 @@ func genOne(c *hx.Ctx, class string) string {
 	nQ := r.Range(1, 3)
 	n := r.Range(1, 24)
 	maxTicks := 3
+	var tieOne int64
 	switch class {
 	case "many":
 		n = r.Range(33, 60)
@@ -70,6 +71,10 @@ func genOne(c *hx.Ctx, class string) string {
 		maxTicks = 2
 	case "tie0":
 		n = r.Range(1, 10)
+		if r.Intn(2) == 0 {
+			n = r.Range(5, 9)
+			tieOne = int64(r.Range(1, maxTicks)) * T
+		}
 	case "closedq":
 		n = r.Range(2, 16)
 		nQ = r.Range(2, 3)
@@ -96,6 +101,9 @@ func genOne(c *hx.Ctx, class string) string {
 		d := genDelay(r, t, pool)
 		if class == "tie0" {
 			t = int64(r.Range(1, maxTicks)) * T
+			if tieOne > 0 {
+				t = tieOne // 5-9 SendDelayed calls at ONE tick instant
+			}
 			if r.Intn(3) > 0 {
 				d = 0
 			}
